@@ -51,7 +51,10 @@ __CPROVER_ensures(GS0[0] == s[0] && GS1[0] == s[1] && GS0[1] == s[2] && GS1[1] =
 #define P1K(p) ((p)->s2l_pow_red[GK])
 #define P2K(p) ((p)->s2h_pow_red[GK])
 void bbc_ref__c(q120_mat1col_product_bbc_precomp* precomp, const uint64_t ell, q120b* const res, const q120b* const x, const q120c* const y)
-__CPROVER_requires(ell <= MAX_ELL && GK < 4 && ACC[0] == 0 && ACC[1] == 0 && ACC[2] == 0 && ACC[3] == 0)
+#ifndef LANE
+#define LANE 0
+#endif
+__CPROVER_requires(ell <= MAX_ELL && GK == LANE && ACC[0] == 0 && ACC[1] == 0 && ACC[2] == 0 && ACC[3] == 0)
 __CPROVER_requires(__CPROVER_is_fresh(precomp, sizeof(*precomp)) && WF_BBC(precomp))
 __CPROVER_requires(__CPROVER_is_fresh(res, 32) && __CPROVER_is_fresh(x, ell * 32) && __CPROVER_is_fresh(y, ell * 32))
 __CPROVER_assigns(__CPROVER_object_upto(res, 32), __CPROVER_object_whole(ACC), __CPROVER_object_whole(GS0), __CPROVER_object_whole(GS1))
@@ -71,7 +74,10 @@ void h_accum_mul(void) {
   uint64_t res[8], old[8]; uint32_t x[8], y[8];
   for (int i = 0; i < 8; ++i) { res[i] = nondet_u64(); x[i] = nondet_u32(); y[i] = nondet_u32(); __CPROVER_assume(res[i] <= BUDGET - STEP_MAX); old[i] = res[i]; }
   F(accum_mul_q120_bc)(res, x, y);
-  uint64_t k = nondet_u64(); __CPROVER_assume(k < 4);
+#ifndef LANE
+#define LANE 0
+#endif
+  const int k = LANE;   // one run per lane: a symbolic lane index makes the 128-bit products array-indexed (timeout)
   __CPROVER_assert(res[2 * k] >= old[2 * k] && res[2 * k] - old[2 * k] <= STEP_MAX && res[2 * k + 1] >= old[2 * k + 1] && res[2 * k + 1] - old[2 * k + 1] <= STEP_MAX, "accum_mul: each accumulator word grows by at most 2^33-2 (no wrap)");
   __CPROVER_assert(VK(res, k) == VK(old, k) + TERM(x, y, k), "accum_mul: V(res') == V(res) + x_lo*y_lo + x_hi*y_hi exactly");
   VACUITY_CANARY();
@@ -83,7 +89,7 @@ void h_accum_to(void) {
   for (int i = 0; i < 4; ++i) { p.s2l_pow_red[i] = nondet_u64(); p.s2h_pow_red[i] = nondet_u64(); }
   __CPROVER_assume(WF_BBC(&p));
   F(accum_to_q120b)(res, s, &p);
-  uint64_t k = nondet_u64(); __CPROVER_assume(k < 4);
+  const int k = LANE;
   __CPROVER_assert((u128)res[k] == TOQ(s, &p, k), "accum_to_q120b: res[k] == s0 + (s1 mod 2^h)*P1 + (s1>>h)*P2 without 64-bit wrap");
   VACUITY_CANARY();
 }
